@@ -2,4 +2,443 @@ import Iscp.Model.ConnM
 /-! helper lemmas for C05 / C10 (proofs only; the property statements live in Iscp/Props/C05.lean and C10.lean) -/
 namespace Iscp.ConnM
 
+theorem run_nil (s : St) : run s [] = s := rfl
+theorem run_cons (s : St) (e : Ev) (es : List Ev) : run s (e :: es) = run (step s e) es := rfl
+theorem run_append (s : St) (a b : List Ev) : run s (a ++ b) = run (run s a) b := by
+  simp [run, List.foldl_append]
+
+macro "ev_cases " e:ident : tactic =>
+  `(tactic| rcases $e:ident with _ | _ | _ | _ | (_|_) | ⟨_, (_|_)⟩ | _ | _)
+
+theorem step_disc (s : St) (e : Ev) :
+    (step s e).disc = s.disc + (if s.status = .connected ∧ (step s e).status = .reconnecting then 1 else 0)
+      + (if s.status = .connected ∧ e = .close then 1 else 0) := by
+  ev_cases e <;> cases h : s.status <;> simp [step, loseTransport, h] <;> split <;> simp_all
+
+theorem step_reconn (s : St) (e : Ev) :
+    (step s e).reconn = s.reconn + (if s.status = .reconnecting ∧ (step s e).status = .connected then 1 else 0) := by
+  ev_cases e <;> cases h : s.status <;> simp [step, loseTransport, h] <;> split <;> simp_all
+
+theorem attempts_cons (s : St) (e : Ev) (es : List Ev) :
+    attempts s (e :: es) = attempts s [e] + attempts (step s e) es := by
+  simp [attempts]
+
+theorem step_dials (s : St) (e : Ev) :
+    (step s e).dials = s.dials + attempts s [e] := by
+  ev_cases e <;> cases h : s.status <;> simp [attempts, step, loseTransport, h] <;> split <;> simp_all
+
+theorem run_disc (s : St) (evs : List Ev) :
+    (run s evs).disc = s.disc + outages s evs + liveCloses s evs := by
+  induction evs generalizing s with
+  | nil => simp [run_nil, outages, liveCloses]
+  | cons e es ih => rw [run_cons, ih, step_disc]; simp only [outages, liveCloses]; omega
+
+theorem run_reconn (s : St) (evs : List Ev) :
+    (run s evs).reconn = s.reconn + recoveries s evs := by
+  induction evs generalizing s with
+  | nil => simp [run_nil, recoveries]
+  | cons e es ih => rw [run_cons, ih, step_reconn]; simp only [recoveries]; omega
+
+theorem run_dials (s : St) (evs : List Ev) :
+    (run s evs).dials = s.dials + attempts s evs := by
+  induction evs generalizing s with
+  | nil => simp [run_nil, attempts]
+  | cons e es ih => rw [run_cons, ih, step_dials, attempts_cons s e es]; omega
+
+
+/-! scalar invariant -/
+structure Inv1 (s : St) : Prop where
+  tok : s.tokens = s.dials
+  conn : s.status = .connected → s.disc = s.reconn
+  nconn : s.status ≠ .connected → s.disc = s.reconn + 1
+  inc : s.inc = s.reconn + 1
+  failed : s.status ≠ .closed → s.failed = []
+  pend : s.status ≠ .reconnecting → s.pending = []
+  dsc : s.status = .closed → s.disconnectSent = 1
+  dsn : s.status ≠ .closed → s.disconnectSent = 0
+  wac : s.wireAfterClose = 0
+
+theorem inv1_init : Inv1 {} := by constructor <;> simp
+
+theorem inv1_step (s : St) (e : Ev) (h : Inv1 s) : Inv1 (step s e) := by
+  obtain ⟨h1, h2, h3, h4, h5, h6, h7, h8, h9⟩ := h
+  ev_cases e <;> cases hst : s.status <;> simp only [step, loseTransport, hst, ↓reduceIte, Bool.false_eq_true, reduceCtorEq] <;> (try split) <;>
+    simp only [hst, ne_eq, reduceCtorEq, not_false_eq_true, not_true_eq_false, forall_const, false_implies] at h2 h3 h5 h6 h7 h8 <;>
+    constructor <;> simp [*]
+
+theorem inv1_run (s : St) (evs : List Ev) (h : Inv1 s) : Inv1 (run s evs) := by
+  induction evs generalizing s with
+  | nil => exact h
+  | cons e es ih => exact ih _ (inv1_step s e h)
+
+
+/-! stream-level lemmas -/
+def IdPres (f : Stream → Stream) : Prop :=
+  ∀ x, (f x).sid = x.sid ∧ (f x).dir = x.dir ∧ (f x).streamAlias = x.streamAlias
+
+theorem closeOne_id (b : Bool) : IdPres (closeOne b) := by
+  intro x; unfold closeOne; split <;> simp
+
+theorem endWithConn_id : IdPres endWithConn := by
+  intro x; unfold endWithConn; split <;> simp
+
+theorem detach_id : IdPres detach := by
+  intro x; unfold detach; split <;> simp [closeOne_id true x]
+
+theorem reopen_id : IdPres (fun x => { x with st := .opened, resumedEv := x.resumedEv + 1 }) := by
+  intro x; simp
+
+theorem cond_id (sid : Nat) (f : Stream → Stream) (hf : IdPres f) :
+    IdPres (fun x => if x.sid = sid then f x else x) := by
+  intro x; dsimp only; split
+  · exact hf x
+  · simp
+
+theorem map_sid (f : Stream → Stream) (hf : IdPres f) (l : List Stream) :
+    (l.map f).map (·.sid) = l.map (·.sid) := by
+  simp [List.map_map, Function.comp_def, (hf _).1]
+
+theorem closeOne_not_live (b : Bool) (x : Stream) (h : live x = false) : closeOne b x = x := by
+  simp [closeOne, h]
+
+theorem endWithConn_not_live (x : Stream) (h : live x = false) : endWithConn x = x := by
+  simp [endWithConn, h]
+
+theorem detach_not_live (x : Stream) (h : live x = false) : detach x = x := by
+  rcases x with ⟨sid, dir, al, st, re, ce⟩
+  cases st <;> simp_all [detach, live]
+
+theorem openPending_sids (next : Nat) (ds : List Dir) :
+    (openPending next ds).map (·.sid) = List.range' next ds.length := by
+  induction ds generalizing next with
+  | nil => simp [openPending]
+  | cons d ds ih => simp [openPending, ih, List.range'_succ]
+
+theorem openPending_mem (next : Nat) (ds : List Dir) :
+    ∀ x ∈ openPending next ds, x.st = .opened ∧ x.closedEv = 0 ∧ next ≤ x.sid ∧ x.sid < next + ds.length := by
+  induction ds generalizing next with
+  | nil => simp [openPending]
+  | cons d ds ih =>
+    intro x hx
+    simp only [openPending, List.mem_cons] at hx
+    rcases hx with rfl | hx
+    · simp
+    · have := ih (next + 1) x hx
+      simp only [List.length_cons]
+      refine ⟨this.1, this.2.1, ?_, ?_⟩ <;> omega
+
+theorem nodup_sid_eq (l : List Stream) (h : (l.map (·.sid)).Nodup) (x y : Stream) (hx : x ∈ l) (hy : y ∈ l)
+    (hxy : x.sid = y.sid) : x = y := by
+  induction l with
+  | nil => cases hx
+  | cons a l ih =>
+    simp only [List.map_cons, List.nodup_cons, List.mem_map, not_exists, not_and] at h
+    rcases List.mem_cons.1 hx with rfl | hx' <;> rcases List.mem_cons.1 hy with rfl | hy'
+    · rfl
+    · exact absurd hxy.symm (h.1 y hy')
+    · exact absurd hxy (h.1 x hx')
+    · exact ih h.2 hx' hy'
+
+def StreamOK (st : Status) (d : Nat) (x : Stream) : Prop :=
+  (x.st = .opened ∨ x.st = .resuming ∨ x.st = .closedConn → x.closedEv = 0) ∧
+  (x.st = .closedOk ∨ x.st = .closedErr → x.closedEv = 1) ∧
+  (x.st = .opened → st = .connected) ∧
+  (x.st = .resuming → st ≠ .closed) ∧
+  (x.st = .closedErr → 1 ≤ d) ∧
+  (x.st = .closedConn → st = .closed) ∧
+  (x.st = .resuming → 1 ≤ d)
+
+theorem sok_detach (d : Nat) (x : Stream) (h : StreamOK .connected d x) : StreamOK .reconnecting (d + 1) (detach x) := by
+  rcases x with ⟨sid, dir, al, st, re, ce⟩
+  cases st <;> simp_all [StreamOK, detach, closeOne, live]
+
+theorem sok_closeOk (st : Status) (d : Nat) (x : Stream) (h : StreamOK st d x) (hst : st ≠ .closed) :
+    StreamOK st d (closeOne false x) := by
+  rcases x with ⟨sid, dir, al, s, re, ce⟩
+  cases s <;> simp_all [StreamOK, closeOne, live]
+
+theorem sok_closeErr (st : Status) (d : Nat) (x : Stream) (h : StreamOK st d x) (hd : 1 ≤ d) :
+    StreamOK st d (closeOne true x) := by
+  rcases x with ⟨sid, dir, al, s, re, ce⟩
+  cases s <;> simp_all [StreamOK, closeOne, live]
+
+theorem sok_endWithConn (st : Status) (d d' : Nat) (x : Stream) (h : StreamOK st d x) (hd : d ≤ d') :
+    StreamOK .closed d' (endWithConn x) := by
+  rcases x with ⟨sid, dir, al, s, re, ce⟩
+  cases s <;> simp_all [StreamOK, endWithConn, live] <;> omega
+
+theorem sok_recover (d : Nat) (x : Stream) (h : StreamOK .reconnecting d x) : StreamOK .connected d x := by
+  rcases x with ⟨sid, dir, al, s, re, ce⟩
+  cases s <;> simp_all [StreamOK]
+
+theorem sok_reopen (d : Nat) (x : Stream) (h : StreamOK .connected d x) (hr : x.st = .resuming) :
+    StreamOK .connected d { x with st := .opened, resumedEv := x.resumedEv + 1 } := by
+  rcases x with ⟨sid, dir, al, s, re, ce⟩
+  cases s <;> simp_all [StreamOK]
+
+
+/-! stream invariant -/
+def SInv (st : Status) (d n : Nat) (l : List Stream) : Prop :=
+  (l.map (·.sid)).Nodup ∧ (∀ x ∈ l, x.sid < n) ∧ ∀ x ∈ l, StreamOK st d x
+
+def Inv2 (s : St) : Prop := SInv s.status s.disc s.nextSid s.streams
+
+theorem sinv_map (st st' : Status) (d d' n : Nat) (l : List Stream) (f : Stream → Stream) (hf : IdPres f)
+    (hok : ∀ x ∈ l, StreamOK st d x → StreamOK st' d' (f x)) (h : SInv st d n l) : SInv st' d' n (l.map f) := by
+  obtain ⟨h1, h2, h3⟩ := h
+  refine ⟨by rw [map_sid f hf]; exact h1, ?_, ?_⟩
+  · intro y hy
+    obtain ⟨x, hx, rfl⟩ := List.mem_map.1 hy
+    rw [(hf x).1]; exact h2 x hx
+  · intro y hy
+    obtain ⟨x, hx, rfl⟩ := List.mem_map.1 hy
+    exact hok x hx (h3 x hx)
+
+theorem sinv_upd (st : Status) (d n : Nat) (l : List Stream) (sid : Nat) (f : Stream → Stream) (hf : IdPres f)
+    (hok : ∀ x ∈ l, x.sid = sid → StreamOK st d x → StreamOK st d (f x)) (h : SInv st d n l) :
+    SInv st d n (updStream sid f l) := by
+  unfold updStream
+  refine sinv_map st st d d n l _ (cond_id sid f hf) ?_ h
+  intro x hx hk
+  show StreamOK st d (if x.sid = sid then f x else x)
+  split
+  · next hs => exact hok x hx hs hk
+  · exact hk
+
+theorem sinv_append (st st' : Status) (d n n' : Nat) (l ex : List Stream)
+    (hold : ∀ x ∈ l, StreamOK st d x → StreamOK st' d x)
+    (hsid : ex.map (·.sid) = List.range' n (n' - n)) (hn : n ≤ n')
+    (hex : ∀ x ∈ ex, x.st = .opened ∧ x.closedEv = 0) (hst : st' = .connected)
+    (h : SInv st d n l) : SInv st' d n' (l ++ ex) := by
+  obtain ⟨h1, h2, h3⟩ := h
+  have hexs : ∀ x ∈ ex, n ≤ x.sid ∧ x.sid < n' := by
+    intro x hx
+    have : x.sid ∈ ex.map (·.sid) := List.mem_map_of_mem hx
+    rw [hsid, List.mem_range'_1] at this
+    omega
+  refine ⟨?_, ?_, ?_⟩
+  · rw [List.map_append, List.nodup_append]
+    refine ⟨h1, by rw [hsid]; exact List.nodup_range', ?_⟩
+    intro a ha b hb
+    obtain ⟨x, hx, rfl⟩ := List.mem_map.1 ha
+    obtain ⟨y, hy, rfl⟩ := List.mem_map.1 hb
+    have := h2 x hx; have := hexs y hy; omega
+  · intro x hx
+    rcases List.mem_append.1 hx with hx | hx
+    · have := h2 x hx; omega
+    · exact (hexs x hx).2
+  · intro x hx
+    rcases List.mem_append.1 hx with hx | hx
+    · exact hold x hx (h3 x hx)
+    · obtain ⟨ho, hc⟩ := hex x hx
+      subst hst
+      simp [StreamOK, ho, hc]
+
+theorem inv2_init : Inv2 {} := by simp [Inv2, SInv]
+
+theorem inv2_step (s : St) (e : Ev) (h : Inv2 s) : Inv2 (step s e) := by
+  rcases e with d | r | r | _ | (_|_) | ⟨sid, (_|_)⟩ | sid | _ <;> cases hst : s.status <;>
+    simp only [Inv2, step, loseTransport, hst, ↓reduceIte, Bool.false_eq_true, reduceCtorEq] at h ⊢ <;>
+    (try exact h)
+  case openStream.connected =>
+    refine sinv_append _ _ _ _ _ _ [_] (fun _ _ hk => hk) ?_ (by omega) ?_ rfl h
+    · simp [List.range'_one]
+    · simp
+  case requestCut.connected =>
+    exact sinv_map _ _ _ _ _ _ _ detach_id (fun x _ hk => sok_detach _ x hk) h
+  case kill.connected =>
+    exact sinv_map _ _ _ _ _ _ _ detach_id (fun x _ hk => sok_detach _ x hk) h
+  case dial.true.reconnecting =>
+    refine sinv_append _ _ _ _ _ _ _ (fun x _ hk => sok_recover _ x hk) ?_ (by omega) ?_ rfl h
+    · rw [openPending_sids]; congr 1; omega
+    · intro x hx; have := openPending_mem _ _ x hx; exact ⟨this.1, this.2.1⟩
+  case resume.ok.connected =>
+    split
+    · next hany =>
+      simp only [List.any_eq_true, Bool.and_eq_true, decide_eq_true_eq] at hany
+      obtain ⟨y, hy, hys, hyr⟩ := hany
+      refine sinv_upd _ _ _ _ _ _ reopen_id ?_ h
+      intro x hx hxs hk
+      have : x = y := nodup_sid_eq _ h.1 x y hx hy (by omega)
+      subst this
+      exact sok_reopen _ x hk hyr
+    · rw [hst]; exact h
+  case resume.refused.connected =>
+    split
+    · next hany =>
+      simp only [List.any_eq_true, Bool.and_eq_true, decide_eq_true_eq] at hany
+      obtain ⟨y, hy, hys, hyr⟩ := hany
+      have hd : 1 ≤ s.disc := (h.2.2 y hy).2.2.2.2.2.2 hyr
+      exact sinv_upd _ _ _ _ _ _ (closeOne_id true) (fun x _ _ hk => sok_closeErr _ _ x hk hd) h
+    · rw [hst]; exact h
+  case closeStream.connected =>
+    exact sinv_upd _ _ _ _ _ _ (closeOne_id false) (fun x _ _ hk => sok_closeOk _ _ x hk (by simp)) h
+  case closeStream.reconnecting =>
+    exact sinv_upd _ _ _ _ _ _ (closeOne_id false) (fun x _ _ hk => sok_closeOk _ _ x hk (by simp)) h
+  case close.connected =>
+    exact sinv_map _ _ _ _ _ _ _ endWithConn_id (fun x _ hk => sok_endWithConn _ _ _ x hk (by omega)) h
+  case close.reconnecting =>
+    exact sinv_map _ _ _ _ _ _ _ endWithConn_id (fun x _ hk => sok_endWithConn _ _ _ x hk (by omega)) h
+
+theorem inv2_run (s : St) (evs : List Ev) (h : Inv2 s) : Inv2 (run s evs) := by
+  induction evs generalizing s with
+  | nil => exact h
+  | cons e es ih => exact ih _ (inv2_step s e h)
+
+
+/-! identity of streams through a step -/
+theorem step_streams_shape (s : St) (e : Ev) :
+    (∃ ex, (step s e).streams = s.streams ++ ex) ∨ (∃ f, IdPres f ∧ (step s e).streams = s.streams.map f) := by
+  rcases e with d | r | r | _ | (_|_) | ⟨sid, (_|_)⟩ | sid | _ <;> cases hst : s.status <;>
+    simp only [step, loseTransport, hst, ↓reduceIte, Bool.false_eq_true, reduceCtorEq] <;>
+    (try (first | split | skip)) <;>
+    first
+    | exact Or.inl ⟨[], (List.append_nil _).symm⟩
+    | exact Or.inl ⟨_, rfl⟩
+    | exact Or.inr ⟨_, detach_id, rfl⟩
+    | exact Or.inr ⟨_, endWithConn_id, rfl⟩
+    | exact Or.inr ⟨_, cond_id _ _ reopen_id, rfl⟩
+    | exact Or.inr ⟨_, cond_id _ _ (closeOne_id _), rfl⟩
+
+theorem step_streams_pres (s : St) (e : Ev) :
+    ∀ x ∈ s.streams, ∃ y ∈ (step s e).streams, y.sid = x.sid ∧ y.dir = x.dir ∧ y.streamAlias = x.streamAlias := by
+  intro x hx
+  rcases step_streams_shape s e with ⟨ex, h⟩ | ⟨f, hf, h⟩
+  · exact ⟨x, by rw [h]; exact List.mem_append_left _ hx, rfl, rfl, rfl⟩
+  · exact ⟨f x, by rw [h]; exact List.mem_map_of_mem hx, hf x⟩
+
+theorem step_inc_mono (s : St) (e : Ev) : s.inc ≤ (step s e).inc := by
+  ev_cases e <;> cases hst : s.status <;>
+    simp only [step, loseTransport, hst, ↓reduceIte, Bool.false_eq_true, reduceCtorEq] <;>
+    (try (first | split | skip)) <;> simp
+
+theorem step_resumes (s : St) (e : Ev) :
+    ∀ r ∈ (step s e).resumes, r ∈ s.resumes ∨
+      (s.status = .connected ∧ r.1 = s.inc ∧ (∃ x ∈ s.streams, x.sid = r.2.1 ∧ x.streamAlias = r.2.2) ∧
+        ∃ y ∈ s.streams, y.st = .resuming) := by
+  rcases e with d | r | r | _ | (_|_) | ⟨sid, (_|_)⟩ | sid | _ <;> cases hst : s.status <;>
+    simp only [step, loseTransport, hst, ↓reduceIte, Bool.false_eq_true, reduceCtorEq] <;>
+    (try (first | split | skip)) <;> (try (intro r hr; exact Or.inl hr))
+  next hany =>
+    simp only [List.any_eq_true, Bool.and_eq_true, decide_eq_true_eq] at hany
+    obtain ⟨y, hy, hys, hyr⟩ := hany
+    intro r hr
+    rcases List.mem_append.1 hr with hr | hr
+    · exact Or.inl hr
+    · obtain ⟨x, hx, rfl⟩ := List.mem_map.1 hr
+      have hx' := (List.mem_filter.1 hx).1
+      exact Or.inr ⟨trivial, rfl, ⟨x, hx', rfl, rfl⟩, y, hy, hyr⟩
+
+def Inv3 (s : St) : Prop :=
+  ∀ r ∈ s.resumes, ∃ x ∈ s.streams, x.sid = r.2.1 ∧ x.streamAlias = r.2.2 ∧ 2 ≤ r.1 ∧ r.1 ≤ s.inc
+
+theorem inv3_init : Inv3 {} := by simp [Inv3]
+
+theorem inv3_step (s : St) (e : Ev) (h1 : Inv1 s) (h2 : Inv2 s) (h : Inv3 s) : Inv3 (step s e) := by
+  intro r hr
+  have hm := step_inc_mono s e
+  rcases step_resumes s e r hr with hr | ⟨hc, hri, ⟨x, hx, hxs, hxa⟩, y, hy, hyr⟩
+  · obtain ⟨x, hx, hxs, hxa, h2r, hri⟩ := h r hr
+    obtain ⟨z, hz, hzs, _, hza⟩ := step_streams_pres s e x hx
+    exact ⟨z, hz, by omega, by omega, h2r, by omega⟩
+  · obtain ⟨z, hz, hzs, _, hza⟩ := step_streams_pres s e x hx
+    have hd : 1 ≤ s.disc := (h2.2.2 y hy).2.2.2.2.2.2 hyr
+    have := h1.conn hc
+    have := h1.inc
+    exact ⟨z, hz, by omega, by omega, by omega, by omega⟩
+
+structure Inv (s : St) : Prop where
+  i1 : Inv1 s
+  i2 : Inv2 s
+  i3 : Inv3 s
+
+theorem inv_init : Inv {} := ⟨inv1_init, inv2_init, inv3_init⟩
+
+theorem inv_step (s : St) (e : Ev) (h : Inv s) : Inv (step s e) :=
+  ⟨inv1_step s e h.i1, inv2_step s e h.i2, inv3_step s e h.i1 h.i2 h.i3⟩
+
+theorem inv_run (s : St) (evs : List Ev) (h : Inv s) : Inv (run s evs) := by
+  induction evs generalizing s with
+  | nil => exact h
+  | cons e es ih => exact ih _ (inv_step s e h)
+
+theorem inv_reach (evs : List Ev) : Inv (run {} evs) := inv_run _ _ inv_init
+
+/-! a closed stream stays -/
+theorem step_keeps_closed_stream (s : St) (e : Ev) (x : Stream) (hx : x ∈ s.streams) (hc : live x = false)
+    (hnd : (s.streams.map (·.sid)).Nodup) : x ∈ (step s e).streams := by
+  have hupd : ∀ (sid : Nat) (f : Stream → Stream), (x.sid = sid → f x = x) → x ∈ updStream sid f s.streams := by
+    intro sid f hf
+    refine List.mem_map.2 ⟨x, hx, ?_⟩
+    show (if x.sid = sid then f x else x) = x
+    split
+    · next hs => exact hf hs
+    · rfl
+  rcases e with d | r | r | _ | (_|_) | ⟨sid, (_|_)⟩ | sid | _ <;> cases hst : s.status <;>
+    simp only [step, loseTransport, hst, ↓reduceIte, Bool.false_eq_true, reduceCtorEq] <;>
+    (try (first | split | skip)) <;>
+    first
+    | exact hx
+    | exact List.mem_append_left _ hx
+    | exact List.mem_map.2 ⟨x, hx, detach_not_live x hc⟩
+    | exact List.mem_map.2 ⟨x, hx, endWithConn_not_live x hc⟩
+    | exact hupd _ _ (fun _ => closeOne_not_live _ x hc)
+    | skip
+  next hany =>
+    simp only [List.any_eq_true, Bool.and_eq_true, decide_eq_true_eq] at hany
+    obtain ⟨y, hy, hys, hyr⟩ := hany
+    apply hupd
+    intro hs
+    have : x = y := nodup_sid_eq _ hnd x y hx hy (by omega)
+    subst this
+    simp [live, hyr] at hc
+
+/-! closed is absorbing -/
+theorem step_closed (s : St) (e : Ev) (h : s.status = .closed) :
+    (step s e).status = .closed ∧ (step s e).inc = s.inc ∧ (step s e).dials = s.dials ∧ (step s e).tokens = s.tokens ∧
+    (step s e).sent = s.sent ∧ (step s e).resumes = s.resumes ∧ (step s e).disc = s.disc ∧ (step s e).reconn = s.reconn ∧
+    (step s e).streams = s.streams ∧ (step s e).disconnectSent = s.disconnectSent ∧
+    (step s e).wireAfterClose = s.wireAfterClose ∧ (step s e).pending = s.pending := by
+  ev_cases e <;> simp [step, loseTransport, h]
+
+theorem run_closed (s : St) (evs : List Ev) (h : s.status = .closed) :
+    (run s evs).status = .closed ∧ (run s evs).inc = s.inc ∧ (run s evs).dials = s.dials ∧ (run s evs).tokens = s.tokens ∧
+    (run s evs).sent = s.sent ∧ (run s evs).resumes = s.resumes ∧ (run s evs).disc = s.disc ∧ (run s evs).reconn = s.reconn ∧
+    (run s evs).streams = s.streams ∧ (run s evs).disconnectSent = s.disconnectSent ∧
+    (run s evs).wireAfterClose = s.wireAfterClose ∧ (run s evs).pending = s.pending := by
+  induction evs generalizing s with
+  | nil => simp [run_nil, h]
+  | cons e es ih =>
+    have hs := step_closed s e h
+    have := ih (step s e) hs.1
+    rw [run_cons]
+    simp only [hs] at this
+    exact this
+
+theorem step_close_status (s : St) : (step s .close).status = .closed := by
+  cases hst : s.status <;> simp [step, hst]
+
+/-! requests -/
+def reqOf : Ev → List Nat
+  | .request r => [r]
+  | .requestCut r => [r]
+  | _ => []
+
+theorem step_perm (s : St) (e : Ev) :
+    ((step s e).sent.map (·.2) ++ (step s e).pending ++ (step s e).failed).Perm
+      (s.sent.map (·.2) ++ s.pending ++ s.failed ++ reqOf e) := by
+  ev_cases e <;> cases hst : s.status <;>
+    simp only [step, loseTransport, hst, reqOf, ↓reduceIte, Bool.false_eq_true, reduceCtorEq] <;>
+    (try (first | split | skip)) <;>
+    (rw [List.perm_iff_count]; intro a; simp [List.count_append, List.count_cons, List.map_map, Function.comp_def] <;> omega)
+
+theorem run_perm (s : St) (evs : List Ev) :
+    ((run s evs).sent.map (·.2) ++ (run s evs).pending ++ (run s evs).failed).Perm
+      (s.sent.map (·.2) ++ s.pending ++ s.failed ++ evs.flatMap reqOf) := by
+  induction evs generalizing s with
+  | nil => simp [run_nil]
+  | cons e es ih =>
+    rw [run_cons, List.flatMap_cons, ← List.append_assoc]
+    exact (ih (step s e)).trans ((step_perm s e).append_right _)
+
 end Iscp.ConnM
